@@ -192,6 +192,45 @@ func genC13(tier string, r *rng) {
 			enc := encodeStream(fs, server, r)
 			run(fmt.Sprintf("rdr %d ext,inter %s %d E %s", st, hx(enc), r.intn(4), joinS(script)))
 		}
+		// NextFrame called while a frame is still installed, and the extension refuses the new header (RSV1 on a
+		// control or continuation frame): the reader keeps the OLD frame's chain — through the cipher reader or
+		// not, through the validator or not — over the NEW frame's raw limit; the cipher reader is re-keyed
+		// only if the refused frame is masked
+		for _, oldMasked := range []bool{false, true} {
+			for _, newMasked := range []bool{false, true} {
+				for _, oldText := range []bool{false, true} {
+					for _, newB0 := range []byte{0xc9, 0x40, 0xc0} {
+						b0 := byte(0x02)
+						if oldText {
+							b0 = 0x01
+						}
+						tail := []byte("h\xc3\xa9llo w\xc3\xb6rld")
+						inner := []byte{newB0}
+						if newMasked {
+							inner = append(inner, 0x80|byte(len(tail)), 9, 8, 7, 6)
+						} else {
+							inner = append(inner, byte(len(tail)))
+						}
+						payload := append(append([]byte("ab"), inner...), tail...)
+						payload = append(payload, "zz"...)
+						wire := []byte{b0}
+						if oldMasked {
+							wire = append(wire, 0x80|byte(len(payload)), 1, 2, 3, 4)
+						} else {
+							wire = append(wire, byte(len(payload)))
+						}
+						wire = append(wire, payload...)
+						wire = append(wire, encodeStream([]gframe{{true, 0, ws.OpPing, []byte("p")}, {true, 0, ws.OpContinuation, []byte("end")}}, server, r)...)
+						for _, cfg := range []string{"skip,utf8,ext,inter", "skip,ext,inter"} {
+							for _, k := range []int{0, 3} {
+								run(fmt.Sprintf("rdr %d %s %s %d E nf r:2 nf r:4 ra st", st, cfg, hx(wire), k))
+								run(fmt.Sprintf("rdr %d %s %s %d E nf r:2 nf d st nf ra st", st, cfg, hx(wire), k))
+							}
+						}
+					}
+				}
+			}
+		}
 	}
 	// full stack round trip
 	n := 60
